@@ -5,6 +5,7 @@ package main
 
 import (
 	"fmt"
+	"go/ast"
 	"go/types"
 	"strings"
 
@@ -170,6 +171,9 @@ func (x *Exec) doCall(st *State, fr *Frame, site ssa.Instruction, cc *ssa.CallCo
 
 // doCallEx dispatches a call. deferOf != nil when the call is a deferred call of that frame.
 func (x *Exec) doCallEx(st *State, fr *Frame, site ssa.Instruction, cc *ssa.CallCommon, fnv *Val, args []*Val, deferOf *Frame, kn func(*State, []*Val), kp func(*State, *Val)) {
+	if fr.contract != nil && len(fr.contract.After) > 0 {
+		kn = x.withAfter(fr, site, cc, kn)
+	}
 	if b, ok := cc.Value.(*ssa.Builtin); ok {
 		x.builtin(st, fr, site, b, cc, args, deferOf, kn, kp)
 		return
@@ -292,4 +296,140 @@ func (x *Exec) pureApp(st *State, c *Contract, fn *ssa.Function, args []*Val) *V
 	v, fact := x.pureAppFact(st, c, fn, args)
 	st.assume(fact)
 	return v
+}
+
+// withAfter wraps the normal continuation of a call with the ghost assertions
+// the enclosing function's contract places after calls of this callee.
+func (x *Exec) withAfter(fr *Frame, site ssa.Instruction, cc *ssa.CallCommon, kn func(*State, []*Val)) func(*State, []*Val) {
+	var name string
+	if cc.IsInvoke() {
+		name = strings.TrimPrefix(ifaceMethodKey(cc.Method), "iface:")
+	} else if sc := cc.StaticCallee(); sc != nil {
+		name = fnKey(sc)
+	} else {
+		name = cc.Value.Name()
+	}
+	var cls []AfterClause
+	for _, a := range fr.contract.After {
+		if a.Callee == name || strings.HasSuffix(name, "."+a.Callee) || strings.HasSuffix(name, a.Callee) {
+			cls = append(cls, a)
+		}
+	}
+	if len(cls) == 0 {
+		return kn
+	}
+	return func(s *State, res []*Val) {
+		env := x.frameEnv(s, fr)
+		for i, r := range res {
+			env.vars[fmt.Sprintf("result%d", i)] = r
+		}
+		if len(res) == 1 {
+			env.vars["result"] = res[0]
+		}
+		ord := 0
+		if site != nil {
+			ord = x.siteOrdinal(fr.fn, site, "call")
+		}
+		for i, a := range cls {
+			if a.Inst {
+				s.assume(x.instantiateRequires(env, fr.contract, a.Cl))
+				continue
+			}
+			lbl := a.Cl.Label
+			if lbl == "" {
+				lbl = fmt.Sprint(i)
+			}
+			g := env.evalBool(a.Cl)
+			x.emit(s, fmt.Sprintf("ghost:%s%s@%d", fr.prefix, lbl, ord), "ghost", g, fmt.Sprintf("ghost assertion %q after call of %s", a.Cl.Src, a.Callee))
+			s.assume(g)
+		}
+		kn(s, res)
+	}
+}
+
+// instantiateRequires: cl is "<label>(e1, ..., en)". The requires clause with
+// that label must be a nest of universal quantifiers; the result is its body with
+// the bound variables replaced by the given values, evaluated in the entry state.
+// Sound by construction: an instance of a universally quantified hypothesis.
+func (x *Exec) instantiateRequires(env *CEnv, c *Contract, cl Clause) Tm {
+	call, ok := cl.Expr.(*ast.CallExpr)
+	if !ok {
+		engineErr("instantiate: expected <label>(args)")
+	}
+	id, ok := call.Fun.(*ast.Ident)
+	if !ok {
+		engineErr("instantiate: expected <label>(args)")
+	}
+	var req *Clause
+	for i := range c.Requires {
+		if c.Requires[i].Label == id.Name {
+			req = &c.Requires[i]
+		}
+	}
+	for i := range c.Assumes {
+		if c.Assumes[i].Label == id.Name {
+			req = &c.Assumes[i]
+		}
+	}
+	if req == nil {
+		engineErr("instantiate: no requires clause labelled %q in contract of %s", id.Name, c.Key)
+	}
+	sub := env.sub()
+	for k, v := range env.vars {
+		sub.vars[k] = v
+	}
+	var guards []Tm
+	body := req.Expr
+	m := env.st.m
+	ai := 0
+	for {
+		ce, ok := body.(*ast.CallExpr)
+		if !ok {
+			break
+		}
+		fid, ok := ce.Fun.(*ast.Ident)
+		if !ok {
+			break
+		}
+		var name string
+		var next ast.Expr
+		var lo, hi ast.Expr
+		switch fid.Name {
+		case "forallint", "forallref":
+			name, next = ce.Args[0].(*ast.Ident).Name, ce.Args[1]
+		case "forallv":
+			name, next = ce.Args[0].(*ast.Ident).Name, ce.Args[2]
+		case "forall":
+			name, lo, hi, next = ce.Args[0].(*ast.Ident).Name, ce.Args[1], ce.Args[2], ce.Args[3]
+		default:
+			name = ""
+		}
+		if name == "" {
+			break
+		}
+		if ai >= len(call.Args) {
+			engineErr("instantiate %s: too few arguments", id.Name)
+		}
+		v := env.eval(call.Args[ai])
+		if v.C != nil {
+			v = env.typed(v, types.Typ[types.Int])
+		}
+		ai++
+		sub.bound[name] = v
+		if lo != nil {
+			old := *sub
+			old.inOld = true
+			l := x.toIdx(env.st, old.typed(old.eval(lo), types.Typ[types.Int]))
+			h := x.toIdx(env.st, old.typed(old.eval(hi), types.Typ[types.Int]))
+			guards = append(guards, m.le(l, x.toIdx(env.st, v)), m.lt(x.toIdx(env.st, v), h))
+		}
+		body = next
+	}
+	if ai != len(call.Args) {
+		engineErr("instantiate %s: %d arguments for %d bound variables", id.Name, len(call.Args), ai)
+	}
+	old := *sub
+	old.inOld = true
+	r := old.eval(body)
+	return implies(and(guards...), r.S)
 }
